@@ -148,6 +148,11 @@ class SyncInterpreter(BaseInterpreter[TContext, TEvent]):
         #: Events enqueued while a macrostep was being processed, i.e. raised
         #: by the machine itself. Only these count towards `maxIterations`.
         self._chained_sends: int = 0
+        #: Thread that currently drains the queue. Only ITS sends are part of
+        #: a self-raised chain; a timer, actor or caller thread that sends
+        #: while a drain is running is outside traffic and must never count
+        #: towards (or be discarded by) the `maxIterations` bound.
+        self._drain_owner: Optional[int] = None
 
         logger.info("✅ Synchronous Interpreter '%s' initialized. 🎉", self.id)
 
@@ -331,7 +336,7 @@ class SyncInterpreter(BaseInterpreter[TContext, TEvent]):
 
         event_obj = self._prepare_event(event_or_type, **payload)
         with self._queue_lock:
-            if self._is_processing:
+            if self._is_processing and self._drain_owner == threading.get_ident():
                 self._chained_sends += 1
             self._event_queue.append(event_obj)
         self._process_event_queue()
@@ -362,6 +367,7 @@ class SyncInterpreter(BaseInterpreter[TContext, TEvent]):
             if self._is_processing:
                 return
             self._is_processing = True
+            self._drain_owner = threading.get_ident()
         # 🛟 Bound the macrostep. The `raise` built-in re-enters this queue, so
         #    an action that raises its own trigger event feeds itself forever.
         #    `max_iterations` previously guarded only the eventless (`always`)
@@ -1321,7 +1327,7 @@ class SyncInterpreter(BaseInterpreter[TContext, TEvent]):
                     "🚫 Child '%s' is no longer current; no onDone.", child.id
                 )
                 return
-            if self._is_processing:
+            if self._is_processing and self._drain_owner == threading.get_ident():
                 self._chained_sends += 1
             self._event_queue.append(done_event)
         logger.info("🏁 Child actor '%s' completed; firing onDone.", child.id)
@@ -1452,8 +1458,6 @@ class SyncInterpreter(BaseInterpreter[TContext, TEvent]):
                         )
                     )
                     if fire:
-                        if self._is_processing:
-                            self._chained_sends += 1
                         self._event_queue.append(event)
                 if fire:
                     logger.debug(
